@@ -166,6 +166,10 @@ pub fn check_sim(prop: &str, tier: &str) -> i32 {
         crate::sched::run_c05(tier, &mut report);
         report.rule = format!("{rule} {}", std::mem::take(&mut report.rule));
     }
+    // the real stop / grace-period logic of the HQ launcher, which the fake launcher mirrors
+    if matches!(prop, "C01" | "C08" | "C14") {
+        machinery.extend(crate::launcher::run(prop, &mut report));
+    }
     // restart halves (journal engine) of the properties that quantify over crash points
     if matches!(prop, "C03" | "C06" | "C07" | "C09" | "C13") {
         let jbudget = if quick { Duration::from_secs(40) } else { Duration::from_secs(15 * 60) };
@@ -261,6 +265,7 @@ pub fn replay_file(path: &str) -> i32 {
         "alloc" => crate::alloc::replay(&v),
         "sched" => crate::sched::replay(&v),
         "autoalloc" => crate::autoalloc::replay(&v),
+        "launcher" => crate::launcher::replay(&v),
         other => {
             eprintln!("replay for engine {other} is handled by its module");
             2
